@@ -359,6 +359,6 @@ FAMILIES = [
            timeout=dict(quick=120, thorough=600), desc='profiled vs plain twin of pipelines with random stages (equally seeded), profiler inside / outside catch, prefetch(2,2), copy(freeze)'),
     Family('interleave', body_interleave, ['backing', 'n', 'ops', 'scenario'], U.POOL_PARAMS, _iconds, timeout=60,
            desc='hit counts under partial iteration + indexing, two interleaved iterators, an abandoned iteration'),
-    Family('profile', body_profile, ['backing', 'n', 'ops'], U.POOL_PARAMS + [('i', 'int')], conditions, timeout=dict(quick=150, thorough=300),
+    Family('profile', body_profile, ['backing', 'n', 'ops'], U.POOL_PARAMS + [('i', 'int')], conditions, timeout=dict(quick=300, thorough=300),
            desc='ProfilingDataset(p) vs p: examples, order, errors, len, ds[i], keys; p untouched; hit counts'),
 ]
